@@ -490,7 +490,9 @@ class Report:
             "wall_s": round(wall, 2),
             "violations": len(self.violations),
         }
-        (EVIDENCE / f"{self.prop}.json").write_text(json.dumps(ev, indent=1, default=str) + "\n")
+        evdir = EVIDENCE if self.prop.startswith("C") else EVIDENCE / "extra"     # X..: coverage beyond the listed properties
+        evdir.mkdir(parents=True, exist_ok=True)
+        (evdir / f"{self.prop}.json").write_text(json.dumps(ev, indent=1, default=str) + "\n")
         print(
             f"[{self.prop}] tier={self.tier} seed={self.seed} states={self.states} traces={self.traces} "
             f"accept={self.accepts} skip={sum(self.skips.values())} known={sum(self.known.values())} "
